@@ -128,7 +128,9 @@ let show_exec (x : exec) : string =
           match v with
           | None -> Buffer.add_string b (Printf.sprintf " (%d none)" (int_of_nat k))
           | Some v -> Buffer.add_string b (Printf.sprintf " (%d " (int_of_nat k)); show_value b v; Buffer.add_char b ')') aw;
-      Buffer.add_string b (Printf.sprintf ") (pers %d))" (if p.p_pers then 1 else 0))) procs;
+      Buffer.add_string b ") ";
+      show_nats b "ur" p.p_unreported;
+      Buffer.add_string b (Printf.sprintf " (pers %d))" (if p.p_pers then 1 else 0))) procs;
   Buffer.add_string b "))";
   Buffer.contents b
 
@@ -199,6 +201,9 @@ let run_op (fx : bool) (f46 : bool) (prog : hprogram) (xs : exec array) (op : Se
   | Sexp.List [Sexp.Atom "result"; e; awaiter; awaited; v; Sexp.List (Sexp.Atom "heap" :: data)] ->
     let e = ios e in
     xs.(e) <- get (notify_result fx xs.(e) (nos awaiter) (nos awaited) (value_of v) (heap_of data)); e
+  | Sexp.List [Sexp.Atom "report"; e; awaiter; Sexp.List (Sexp.Atom "t" :: ts)] ->
+    let e = ios e in
+    xs.(e) <- report_await xs.(e) (nos awaiter) (List.map nos ts); e
   | Sexp.List [Sexp.Atom "fail"; e; awaiter; awaited] ->
     let e = ios e in
     xs.(e) <- fail_result fx xs.(e) (nos awaiter) (nos awaited); e
